@@ -18,8 +18,12 @@
 //                          accessors), unchecked_get<T>, visit<R>, valueless_by_exception, variant_npos, hash<variant>,
 //                          source types for which etl finds no unique alternative (e.g. variant<int,char>(1L)) - a source type is
 //                          compared only where both libraries accept it.
+//   further configurations: variant<NonTriv,int,NonTriv,int> (duplicated alternative types, index-based operations only),
+//                          converting construction / assignment from non-arithmetic sources into variants holding bool.
 // Exclusion tags understood by the generator (for known findings, none recorded at the time of writing):
 //   variant.assign_own_alternative (v = get<index>(v)), variant.converting_narrowing (long / unsigned / double sources).
+#include <etl/string.hpp>
+#include <etl/string_view.hpp>
 #include <etl/utility.hpp>
 #include <etl/variant.hpp>
 
@@ -27,6 +31,7 @@
 #include "tracked.hpp"
 
 #include <array>
+#include <functional>
 #include <limits>
 #include <tuple>
 #include <utility>
@@ -720,11 +725,315 @@ struct FloatRel {
     }
 };
 
+// ================================================================== duplicated alternative types
+// variant<NonTriv,int,NonTriv,int>: only index-based operations exist for such a variant.  Assignment and swap between the
+// two indices of one type must change index() (same type is not same alternative).  Oracle: std::variant<Mt,int,Mt,int>.
+enum DCode : std::uint32_t {
+    D_C_INPLACE, D_C_COPY, D_C_MOVE, D_A_COPY, D_A_MOVE, D_A_SELF, D_EMPLACE, D_SWAP, D_SWAP_SELF, D_WRITE,
+    D_Q_GET, D_Q_VISIT_INDEX, D_Q_VISIT2, D_Q_REL, D_OBSERVE,
+    D_NCODES
+};
+constexpr std::uint32_t D_FIRST_QUERY = D_Q_GET;
+char const* const dcode_names[] = {"variant(in_place_index<I>,v)", "variant(variant const&)", "variant(variant&&)", "copy-assign", "move-assign", "self copy-assign", "emplace<I>(v)", "swap(x,y)", "swap(x,x)",
+    "write through accessor", "get_if/unchecked_get/operator[]", "visit_with_index", "visit(f,x,y)", "relational", "observe"};
+
+struct Dup {
+    using B  = Cfg<TCM, int, TCM, int>; // only its index-based helpers are instantiated
+    using EV = B::EV;
+    using MV = B::MV;
+    using M  = B::M;
+    static constexpr std::size_t N = 4;
+    static auto nontriv(MV const& m) -> bool { return m.index() % 2 == 0; }
+
+    static auto run(OpsCase const& k, int stats) -> std::string
+    {
+        lt::reset();
+        std::string err;
+        bool nt = false, transitioned = false, twin_transfer = false;
+        {
+            struct Sandwich {
+                std::uint64_t pre{0xA5A5A5A5A5A5A5A5ULL};
+                Slot<EV> a;
+                std::uint64_t mid{0x5A5A5A5A5A5A5A5AULL};
+                Slot<EV> b;
+                std::uint64_t post{0xC3C3C3C3C3C3C3C3ULL};
+            } sw;
+            sw.a.make();
+            sw.b.make();
+            M ma{}, mb{};
+            for (auto const& op : k.ops) {
+                bool tb = (op.c & 1U) != 0;
+                Slot<EV>& sx = tb ? sw.b : sw.a;
+                Slot<EV>& sy = tb ? sw.a : sw.b;
+                M& mx      = tb ? mb : ma;
+                M& my      = tb ? ma : mb;
+                int v      = static_cast<int>((op.c >> 1) % NVAL);
+                auto kalt  = static_cast<std::size_t>(op.a % N);
+                auto code  = op.code % D_NCODES;
+                auto xi0 = mx.v.index(), yi0 = my.v.index();
+                if (stats > 1) { vf::count((std::string("dop.") + dcode_names[code]).c_str()); }
+                bool is_query = code >= D_FIRST_QUERY && code != D_OBSERVE;
+                EV& x = *sx.p;
+                EV& y = *sy.p;
+                // a transfer between the two indices of one type (0 <-> 2, 1 <-> 3)
+                bool twins = xi0 != yi0 && xi0 % 2 == yi0 % 2;
+                switch (code) {
+                case D_C_INPLACE: {
+                    with_index<N>(kalt, [&](auto I) {
+                        sx.make(etl::in_place_index<decltype(I)::value>, v);
+                        mx.v      = MV(std::in_place_index<decltype(I)::value>, v);
+                        mx.masked = false;
+                    });
+                    break;
+                }
+                case D_C_COPY: ((op.b & 1U) != 0 ? sx.make(y) : sx.make(std::as_const(y))), mx = my; break;
+                case D_C_MOVE: sx.make(std::move(y)), mx = my, my.masked = nontriv(my.v); break;
+                case D_A_COPY: ((op.b & 1U) != 0 ? (x = y) : (x = std::as_const(y))), mx = my, twin_transfer |= twins; break;
+                case D_A_MOVE: x = std::move(y), mx = my, my.masked = nontriv(my.v), twin_transfer |= twins; break;
+                case D_A_SELF: {
+                    EV const& alias = x;
+                    x               = alias;
+                    break;
+                }
+                case D_EMPLACE: {
+                    with_index<N>(kalt, [&](auto I) {
+                        constexpr auto i = decltype(I)::value;
+                        auto& r          = x.template emplace<i>(v);
+                        mx.v.template emplace<i>(v);
+                        mx.masked = false;
+                        if (static_cast<void const*>(&r) != static_cast<void const*>(etl::get_if<i>(&x))) { err = "emplace<I> returned a reference that is not the new alternative"; }
+                    });
+                    break;
+                }
+                case D_SWAP: {
+                    if ((op.b & 1U) != 0) {
+                        etl::swap(x, y);
+                    } else {
+                        using etl::swap;
+                        swap(x, y);
+                    }
+                    mx.v.swap(my.v);
+                    std::swap(mx.masked, my.masked);
+                    twin_transfer |= twins;
+                    break;
+                }
+                case D_SWAP_SELF: etl::swap(x, x); break;
+                case D_WRITE: {
+                    with_index<N>(mx.v.index(), [&](auto I) {
+                        constexpr auto i = decltype(I)::value;
+                        using A          = B::alt<i>;
+                        switch (op.b % 3) {
+                        case 0: etl::unchecked_get<i>(x) = A(v); break;
+                        case 1: *etl::get_if<i>(&x) = A(v); break;
+                        default: x[etl::index_v<i>] = A(v); break;
+                        }
+                        mx.v.template emplace<i>(v);
+                        mx.masked = false;
+                    });
+                    break;
+                }
+                case D_Q_GET: {
+                    with_index<N>(mx.v.index(), [&](auto I) {
+                        constexpr auto i = decltype(I)::value;
+                        using A          = B::alt<i>;
+                        A const* ref     = etl::get_if<i>(&std::as_const(x));
+                        A& r1            = etl::unchecked_get<i>(x);
+                        A const& r2      = std::as_const(x)[etl::index_v<i>];
+                        if (ref == nullptr || &r1 != ref || &r2 != ref) {
+                            err = "get_if / unchecked_get / operator[] <" + std::to_string(i) + "> do not refer to the active alternative";
+                        } else if (!mx.masked && val(r1) != B::mval(mx.v)) {
+                            err = "unchecked_get<" + std::to_string(i) + "> is " + std::to_string(val(r1)) + ", std::get is " + std::to_string(B::mval(mx.v));
+                        }
+                    });
+                    break;
+                }
+                case D_Q_VISIT_INDEX: {
+                    Log le;
+                    etl::visit_with_index([&](auto p, auto q) {
+                        ++le.calls;
+                        le.idx[0] = static_cast<int>(p.index.value);
+                        le.idx[1] = static_cast<int>(q.index.value);
+                        le.v[0]   = val(p.value());
+                        le.v[1]   = val(q.value());
+                    }, std::as_const(x), std::as_const(y));
+                    int wx = mx.masked ? le.v[0] : B::mval(mx.v);
+                    int wy = my.masked ? le.v[1] : B::mval(my.v);
+                    if (le.calls != 1 || le.idx[0] != static_cast<int>(mx.v.index()) || le.idx[1] != static_cast<int>(my.v.index()) || le.v[0] != wx || le.v[1] != wy) {
+                        err = "visit_with_index(f,x,y): visitor saw " + le.str() + ", expected indices (" + std::to_string(mx.v.index()) + "," + std::to_string(my.v.index()) + ") values (" + std::to_string(wx) + "," + std::to_string(wy) + ")";
+                    }
+                    break;
+                }
+                case D_Q_VISIT2: {
+                    // the alternative types are duplicated: the visitor can only tell the type (0 NonTriv, 1 int) and the value
+                    Log le, lm;
+                    auto mk = [](Log& l) {
+                        return [&l](auto const& a, auto const& b) {
+                            ++l.calls;
+                            l.idx[0] = std::is_same_v<std::remove_cvref_t<decltype(a)>, int> ? 1 : 0;
+                            l.idx[1] = std::is_same_v<std::remove_cvref_t<decltype(b)>, int> ? 1 : 0;
+                            l.v[0]   = val(a);
+                            l.v[1]   = val(b);
+                        };
+                    };
+                    etl::visit(mk(le), x, std::as_const(y));
+                    std::visit(mk(lm), mx.v, my.v);
+                    if (mx.masked) { le.v[0] = lm.v[0] = 0; }
+                    if (my.masked) { le.v[1] = lm.v[1] = 0; }
+                    if (le.calls != 1 || le.idx != lm.idx || le.v != lm.v) { err = "visit(f,x,y): visitor saw " + le.str() + ", std::visit " + lm.str(); }
+                    break;
+                }
+                case D_Q_REL: {
+                    EV const& cx = x;
+                    EV const& cy = y;
+                    MV const& a  = mx.v;
+                    MV const& b  = my.v;
+                    bool e[12] = {cx == cy, cx != cy, cx < cy, cx <= cy, cx > cy, cx >= cy, cy == cx, cy != cx, cy < cx, cy <= cx, cy > cx, cy >= cx};
+                    bool m[12] = {a == b, a != b, a < b, a <= b, a > b, a >= b, b == a, b != a, b < a, b <= a, b > a, b >= a};
+                    static char const* const nm[12] = {"x==y", "x!=y", "x<y", "x<=y", "x>y", "x>=y", "y==x", "y!=x", "y<x", "y<=x", "y>x", "y>=x"};
+                    if (!(a.index() == b.index() && (mx.masked || my.masked))) {
+                        for (int i = 0; i < 12 && err.empty(); ++i) {
+                            if (e[i] != m[i]) { err = std::string("(") + nm[i] + ") is " + (e[i] ? "true" : "false") + ", std::variant says " + (m[i] ? "true" : "false"); }
+                        }
+                    }
+                    break;
+                }
+                case D_OBSERVE:
+                default: break;
+                }
+                if (mx.v.index() != xi0 || my.v.index() != yi0) { transitioned = true; }
+                if (is_query && transitioned) { nt = true; }
+                if (err.empty()) { err = B::compare(tb ? "B" : "A", *sx.p, mx); }
+                if (err.empty()) { err = B::compare(tb ? "A" : "B", *sy.p, my); }
+                if (err.empty() && (sw.pre != 0xA5A5A5A5A5A5A5A5ULL || sw.mid != 0x5A5A5A5A5A5A5A5AULL || sw.post != 0xC3C3C3C3C3C3C3C3ULL)) { err = "canary next to the variant was overwritten"; }
+                if (err.empty() && !lt::violation().empty()) { err = "lifetime: " + lt::violation(); }
+                if (!err.empty()) {
+                    err = std::string("after ") + dcode_names[code] + ": " + err;
+                    break;
+                }
+            }
+        }
+        if (err.empty()) { err = lt::check_empty(); }
+        if (stats > 1) {
+            vf::label("variant_dup.hist.transition_then_query", nt);
+            vf::label("variant_dup.hist.assign_or_swap_between_twin_indices", twin_transfer);
+        }
+        if (stats > 0 && nt) {
+            if (stats > 1) {
+                vf::nontrivial(vf::digest(k));
+            } else {
+                vf::nontrivial_count();
+            }
+        }
+        return err;
+    }
+};
+
+// ================================================================== converting construction / assignment from non-arithmetic sources
+// The alternative is selected by overload resolution over the alternatives whose initialisation from the source is not
+// narrowing; pointer -> bool IS narrowing (P1957), so variant<bool,Name>{"abc"} must hold Name.  Compared with std::variant
+// over the same alternative types, only for sources both libraries accept.  Stateless: a selects the variant, b the source,
+// c construction (0) or assignment (1).
+struct Name { // implicitly constructible from char const* and nullptr
+    char const* s;
+    Name(char const* p) noexcept : s(p) { } // NOLINT
+};
+struct PtrLike {
+    PtrLike(decltype(nullptr) /*p*/) noexcept { } // NOLINT
+};
+enum PlainEnum { plain_e0, plain_e1 };
+enum class ScopedEnum { a, b };
+struct ToInt { operator int() const noexcept { return 1; } };       // NOLINT
+struct ToDouble { operator double() const noexcept { return 1.0; } }; // NOLINT
+struct ToBool { operator bool() const noexcept { return true; } };  // NOLINT
+struct ToPtr { operator char const*() const noexcept { return "x"; } }; // NOLINT
+
+struct Sel {
+    static constexpr std::uint32_t NVAR = 7, NSRC = 13;
+    static auto var_name(std::uint32_t a) -> char const*
+    {
+        static char const* const nm[NVAR] = {"variant<bool,Name>", "variant<bool,string_view>", "variant<bool,inplace_string<16>>", "variant<bool,int,Name>", "variant<int,double>", "variant<bool,PtrLike>", "variant<bool,char const*>"};
+        return nm[a % NVAR];
+    }
+    static auto src_name(std::uint32_t b) -> char const*
+    {
+        static char const* const nm[NSRC] = {"char const*", "string literal", "nullptr", "unscoped enum", "scoped enum", "class with operator int", "class with operator double", "class with operator bool",
+            "class with operator char const*", "reference_wrapper<int>", "int*", "bool", "int"};
+        return nm[b % NSRC];
+    }
+    template <typename EV, typename MV, typename S>
+    static auto one(std::uint32_t a, std::uint32_t b, bool assign, S s, bool& compared) -> std::string
+    {
+        if constexpr (std::is_constructible_v<EV, S> && std::is_constructible_v<MV, S> && std::is_assignable_v<EV&, S> && std::is_assignable_v<MV&, S>) {
+            std::size_t ei = 0, mi = 0;
+            if (!assign) {
+                EV x(static_cast<S>(s));
+                MV m(static_cast<S>(s));
+                ei = x.index(), mi = m.index();
+            } else {
+                EV x;
+                MV m;
+                x  = static_cast<S>(s);
+                m  = static_cast<S>(s);
+                ei = x.index(), mi = m.index();
+            }
+            compared = true;
+            if (ei != mi) { return std::string(var_name(a)) + (assign ? " = " : " constructed from ") + src_name(b) + ": etl selects alternative " + std::to_string(ei) + ", std::variant " + std::to_string(mi); }
+        }
+        return "";
+    }
+    template <typename EV, typename MV>
+    static auto all(std::uint32_t a, std::uint32_t b, bool assign, bool& compared) -> std::string
+    {
+        static int target    = 1;
+        char const* const cp = "abc";
+        switch (b % NSRC) {
+        case 0: return one<EV, MV, char const*>(a, b, assign, cp, compared);
+        case 1: return one<EV, MV, char const(&)[4]>(a, b, assign, "abc", compared);
+        case 2: return one<EV, MV, decltype(nullptr)>(a, b, assign, nullptr, compared);
+        case 3: return one<EV, MV, PlainEnum>(a, b, assign, plain_e1, compared);
+        case 4: return one<EV, MV, ScopedEnum>(a, b, assign, ScopedEnum::b, compared);
+        case 5: return one<EV, MV, ToInt>(a, b, assign, ToInt{}, compared);
+        case 6: return one<EV, MV, ToDouble>(a, b, assign, ToDouble{}, compared);
+        case 7: return one<EV, MV, ToBool>(a, b, assign, ToBool{}, compared);
+        case 8: return one<EV, MV, ToPtr>(a, b, assign, ToPtr{}, compared);
+        case 9: return one<EV, MV, std::reference_wrapper<int>>(a, b, assign, std::ref(target), compared);
+        case 10: return one<EV, MV, int*>(a, b, assign, &target, compared);
+        case 11: return one<EV, MV, bool>(a, b, assign, true, compared);
+        default: return one<EV, MV, int>(a, b, assign, 1, compared);
+        }
+    }
+    static auto run(OpsCase const& k, int stats) -> std::string
+    {
+        using SV = etl::string_view;
+        using IS = etl::inplace_string<16>;
+        for (auto const& op : k.ops) {
+            bool compared = false, assign = (op.c & 1U) != 0;
+            std::string d;
+            switch (op.a % NVAR) {
+            case 0: d = all<etl::variant<bool, Name>, std::variant<bool, Name>>(op.a, op.b, assign, compared); break;
+            case 1: d = all<etl::variant<bool, SV>, std::variant<bool, SV>>(op.a, op.b, assign, compared); break;
+            case 2: d = all<etl::variant<bool, IS>, std::variant<bool, IS>>(op.a, op.b, assign, compared); break;
+            case 3: d = all<etl::variant<bool, int, Name>, std::variant<bool, int, Name>>(op.a, op.b, assign, compared); break;
+            case 4: d = all<etl::variant<int, double>, std::variant<int, double>>(op.a, op.b, assign, compared); break;
+            case 5: d = all<etl::variant<bool, PtrLike>, std::variant<bool, PtrLike>>(op.a, op.b, assign, compared); break;
+            default: d = all<etl::variant<bool, char const*>, std::variant<bool, char const*>>(op.a, op.b, assign, compared); break;
+            }
+            if (stats > 0) {
+                vf::label("variant_sel.source_accepted_by_both", compared);
+                if (compared) { vf::nontrivial_count(); }
+            }
+            if (!d.empty()) { return d; }
+        }
+        return "";
+    }
+};
+
 // ------------------------------------------------------------------ configuration table
 struct Config {
     char const* name;
     std::string (*run)(OpsCase const&, int);
     std::size_t nalt;
+    int kind{0}; // 0 history configuration of Cfg<...>, 1 stateless NaN comparisons, 2 duplicated alternatives (Dup), 3 stateless source selection (Sel)
 };
 // One source, several executables: -DC07_ONLY=<i> builds only configuration i (the registry lists one harness per
 // configuration so that they compile in parallel); configuration ids in case strings are the same in every build.
@@ -748,11 +1057,23 @@ struct Config {
 #else
     #define C07_RUN3 nullptr
 #endif
+#if !defined(C07_ONLY) || C07_ONLY == 0
+    #define C07_RUN4 &Dup::run
+#else
+    #define C07_RUN4 nullptr
+#endif
+#if !defined(C07_ONLY) || C07_ONLY == 1
+    #define C07_RUN5 &Sel::run
+#else
+    #define C07_RUN5 nullptr
+#endif
 Config const configs[] = {
     {"variant<int,char>", C07_RUN0, 2},
     {"variant<int,NonTriv,Small>", C07_RUN1, 3},
     {"variant<NonTriv,int,char,Small>", C07_RUN2, 4},
-    {"variant<int,double> relational incl. NaN", C07_RUN3, 0}, // nalt 0 marks the stateless comparison configuration
+    {"variant<int,double> relational incl. NaN", C07_RUN3, 0, 1},
+    {"variant<NonTriv,int,NonTriv,int>", C07_RUN4, 4, 2},
+    {"variant converting construction / assignment from non-arithmetic sources", C07_RUN5, 0, 3},
 };
 constexpr std::uint32_t nconfigs = sizeof(configs) / sizeof(configs[0]);
 
@@ -769,7 +1090,8 @@ auto describe(OpsCase const& k) -> std::string
     auto const& cfg = configs[k.cfg % nconfigs];
     std::string s   = std::string(cfg.name) + " :";
     for (auto const& o : k.ops) {
-        s += " " + std::string((o.c & 1U) != 0 ? "B." : "A.") + code_names[o.code % NCODES] + "[alt " + std::to_string(cfg.nalt != 0 ? o.a % cfg.nalt : o.a) + ",b " + std::to_string(o.b) + ",v " + std::to_string((o.c >> 1) % NVAL) + "]";
+        char const* opname = cfg.kind == 2 ? dcode_names[o.code % D_NCODES] : cfg.kind == 0 ? code_names[o.code % NCODES] : "compare";
+        s += " " + std::string((o.c & 1U) != 0 ? "B." : "A.") + opname + "[alt " + std::to_string(cfg.nalt != 0 ? o.a % cfg.nalt : o.a) + ",b " + std::to_string(o.b) + ",v " + std::to_string((o.c >> 1) % NVAL) + "]";
     }
     return s;
 }
@@ -836,18 +1158,71 @@ void vf_run(vf::Ctx& c)
         std::uint64_t n = 0;
         for (std::uint32_t ci = 0; ci < nconfigs; ++ci) {
             if (configs[ci].run == nullptr) { continue; }
-            if (configs[ci].nalt == 0) {
-                // stateless: every (lhs state, rhs state) of variant<int,double> incl. NaN
-                for (std::uint32_t a = 0; a < FloatRel::NDOM; ++a) {
-                    for (std::uint32_t b = 0; b < FloatRel::NDOM; ++b) {
-                        if (!c.mine(n++)) { continue; }
-                        OpsCase k;
-                        k.cfg = ci;
-                        k.ops.push_back(RawOp{Q_REL, a, b, 0});
-                        vf::Flight<OpsCase> fl("enum_float_relational", k);
-                        vf::eval("enum_float_relational");
-                        auto d = run_case(k, 1);
-                        if (!d.empty()) { vf::mismatch("enum_float_relational", k, d); }
+            if (configs[ci].kind == 1 || configs[ci].kind == 3) {
+                // stateless: every (lhs state, rhs state) of variant<int,double> incl. NaN / every (variant, source, ctor|assign)
+                bool sel        = configs[ci].kind == 3;
+                char const* sub = sel ? "enum_source_selection" : "enum_float_relational";
+                for (std::uint32_t a = 0; a < (sel ? Sel::NVAR : FloatRel::NDOM); ++a) {
+                    for (std::uint32_t b = 0; b < (sel ? Sel::NSRC : FloatRel::NDOM); ++b) {
+                        for (std::uint32_t cc = 0; cc < (sel ? 2U : 1U); ++cc) {
+                            if (!c.mine(n++)) { continue; }
+                            OpsCase k;
+                            k.cfg = ci;
+                            k.ops.push_back(RawOp{Q_REL, a, b, cc});
+                            vf::Flight<OpsCase> fl(sub, k);
+                            vf::eval(sub);
+                            auto d = run_case(k, 1);
+                            if (!d.empty()) { vf::mismatch(sub, k, d); }
+                        }
+                    }
+                }
+                continue;
+            }
+            if (configs[ci].kind == 2) {
+                // duplicated alternatives: every (state A, state B) x op x query over the index-based operations
+                std::vector<RawOp> ops, queries;
+                for (std::uint32_t code = 0; code < D_NCODES; ++code) {
+                    auto& dst = code < D_FIRST_QUERY ? ops : queries;
+                    switch (code) {
+                    case D_C_INPLACE:
+                    case D_EMPLACE:
+                        for (std::uint32_t a = 0; a < 4; ++a) {
+                            for (std::uint32_t v = 0; v < 3; ++v) { dst.push_back(RawOp{code, a, 0, v << 1}); }
+                        }
+                        break;
+                    case D_C_COPY:
+                    case D_A_COPY:
+                    case D_SWAP: dst.push_back(RawOp{code, 0, 0, 0}), dst.push_back(RawOp{code, 0, 1, 0}); break;
+                    case D_WRITE:
+                        for (std::uint32_t b = 0; b < 3; ++b) { dst.push_back(RawOp{code, 0, b, 2U << 1}); }
+                        break;
+                    case D_OBSERVE: break;
+                    default: dst.push_back(RawOp{code, 0, 0, 0}); break;
+                    }
+                }
+                for (std::uint32_t how = 0; how < 2; ++how) {
+                    std::uint32_t setter = how == 0 ? D_EMPLACE : D_C_INPLACE;
+                    for (std::uint32_t sa = 0; sa < 12; ++sa) {
+                        for (std::uint32_t sb = 0; sb < 12; ++sb) {
+                            OpsCase k;
+                            k.cfg = ci;
+                            k.ops.push_back(RawOp{setter, sa / 3, 0, (sa % 3) << 1});
+                            k.ops.push_back(RawOp{setter, sb / 3, 0, ((sb % 3) << 1) | 1U});
+                            for (auto const& o : ops) {
+                                k.ops.push_back(o);
+                                for (auto const& q : queries) {
+                                    k.ops.push_back(q);
+                                    if (c.mine(n++)) {
+                                        vf::Flight<OpsCase> fl("enum_transitions", k);
+                                        vf::eval("enum_transitions");
+                                        auto d = run_case(k, 1);
+                                        if (!d.empty()) { vf::mismatch("enum_transitions", k, d); }
+                                    }
+                                    k.ops.pop_back();
+                                }
+                                k.ops.pop_back();
+                            }
+                        }
                     }
                 }
                 continue;
@@ -905,8 +1280,8 @@ void vf_run(vf::Ctx& c)
     // E1: random histories of <= 25 ops, every configuration
     int per_cfg = (c.thorough() ? 50000 : 3000) / std::max(1, c.nshards) + 1; // per type over all shards: quick 3k, thorough 50k
     for (std::uint32_t ci = 0; ci < nconfigs; ++ci) {
-        if (configs[ci].run == nullptr || configs[ci].nalt == 0) { continue; }
-        auto gen = rc::gen::map(vf::gen_history(1, NCODES, 25), [ci](OpsCase k) {
+        if (configs[ci].run == nullptr || configs[ci].kind == 1 || configs[ci].kind == 3) { continue; }
+        auto gen = rc::gen::map(vf::gen_history(1, configs[ci].kind == 2 ? std::uint32_t{D_NCODES} : std::uint32_t{NCODES}, 25), [ci](OpsCase k) {
             k.cfg = ci;
             return k;
         });
